@@ -6,10 +6,13 @@
    and EVERY number of sweeps n:  the model's A is symmetric positive definite, has a two-sided
    inverse B with  y.(B x) = y.(B0 x) + sum_i y_i lambda_i (v_i.x)(v_i.y)   [i.e.
    A^-1 - A0^-1 = sum_i y_i lambda_i v_i v_i^T], all lambda_i >= 0 and all slack bounds > 0.
+   PROVED as well (C11_prior_returned): a prior under which every similar pair is already within
+   the upper bound and every dissimilar pair beyond the lower bound is returned unchanged -- after
+   every number of sweeps the state is exactly the initial one (A = A0, every lambda_i = 0).
    NOT mechanised: that a converged (KKT) point is the unique optimum of the LogDet problem (strict
-   convexity); the converged / prior-returned clauses are checked per run. *)
+   convexity); the converged clause is checked per run. *)
 From Coq Require Import List Reals Lra Psatz.
-From ML Require Import Ops Vec VecR MatR PSD ITML C11Proof.
+From ML Require Import Ops Vec VecR MatR PSD ITML C11Proof C11Fixed.
 Import ListNotations.
 Open Scope R_scope.
 
@@ -49,3 +52,22 @@ Proof.
     + intros [|a [|b [|? ?]]] Hx; try discriminate. cbn. f_equal; [|f_equal]; lra.
   - split; [reflexivity|]. unfold vsumsq. cbn. lra.
 Qed.
+
+(* second clause: a prior that satisfies all bounds is returned unchanged *)
+Definition C11_prior_returned_stmt : Prop :=
+  forall (d : nat) (A0 : Rm) (g : option R) (cs : list cstrR) (lo hi : R) (n : nat),
+    gamma_ok g -> wfmR d d A0 -> 0 < lo -> 0 < hi ->
+    Forall (fun c : cstrR => wfvR d (cv c)) cs ->
+    Forall (fun c : cstrR =>
+              let q := vdotR (cv c) (mvmulR A0 (cv c)) in      (* squared learned distance of the pair under the prior *)
+              0 < q /\ (if cpos c then q <= lo else hi <= q)) cs ->
+    runR g cs n (@init ROps A0 cs lo hi) = @init ROps A0 cs lo hi.
+
+Theorem C11_prior_returned : C11_prior_returned_stmt.
+Proof. exact itml_prior_fixed. Qed.
+Print Assumptions C11_prior_returned.
+
+Example C11_prior_returned_nonvacuous :
+  let c := @Build_cstr ROps [1; -2] true in
+  let q := vdotR (cv c) (mvmulR [[1; 0]; [0; 1]] (cv c)) in 0 < q /\ q <= 6.
+Proof. cbn. lra. Qed.
